@@ -37,6 +37,7 @@ class ICtx:
             # the N modelled slots are a link-closed component at symbolic positions of an arena of symbolic length
             for c in self.A.embed(EMBED_MAXLEN): self.eng.solver.add(c)
             UNMAP = self.A.to_abstract
+            self.eng.havoc_elem = self.A.havoc_node
             PREFER = [z3.ULT(self.A.at[-1], 200), z3.ULE(self.A.vlen, self.A.at[-1] + 2)]
         self.acell = self.st.new_cell(self.A.value(embedded=embedded))
         self.id_x = self.A.id_of(self.x)
